@@ -314,7 +314,7 @@ func init() {
 			"LP supply and holder balances are tracked by the harness exactly as add/remove liquidity transactions pass them (coinLiquidity.Volume())",
 			"multi-hop routes, commission swaps and failed-tx fees are covered by the node-level part, not here",
 		},
-		Quick: 300, Thorough: 9000, MinEval: 50000, MinDistinct: 60,
+		Quick: 300, Thorough: 3000, MinEval: 50000, MinDistinct: 60,
 		Run: runC13,
 	})
 }
